@@ -30,8 +30,9 @@ the input.  `UpdClosed G m` quantifies over ALL arguments in `G`, and in an Arch
 closure of a non-constant (Ward), resp. non-zero (centroid, median), set under these three formulas
 is unbounded (e.g. median: `(a,a,d) ↦ a − d/4`), so a bounded closed `G` exists only for constant /
 all-zero matrices.  A run-dependent bound ("every table value of the greedy run is `< max_value`")
-would be the right hypothesis; the simulation proof of `generic_with` (`Lemmas/GenericGreedySim.lean`)
-is stated for a fixed closed `G` and would have to be redone.
+is the right hypothesis: `Spec.RunGood` (`Lemmas/SpecRunGood.lean`); the simulation proof of
+`generic_with` now takes it (`genericWith_sim_run`, `Lemmas/GenericGreedySim.lean`) and the theorems are
+in `Props/C03GenericRun.lean`, `C01Generic.lean`, `C12Generic.lean`.
 -/
 import Kodama.Lemmas.GenericGreedySpec
 import Kodama.Lemmas.FieldInstances
